@@ -197,18 +197,20 @@ Definition check (t : uexpr) : string :=
   let ts := print b in
   let r := reparse ts in
   let dom := fun en => udom en t && negb (divzero en (denote t)) in
+  let sv := vals (fun en => if dom en then Some (ueval en t) else None) in
+  let mv := match r with
+            | ROk e _ => if known e then vals (fun en => if dom en && negb (divzero en e) then Some (seval en e) else None)
+                         else "UNKNOWNFN"
+            | _ => "-"
+            end in
   String.concat ";" [
     render ts;
     match r with ROk e _ => show (canon e) | RErr => "ERR" | RFuel => "FUEL" end;
     show (canon (denote t));
     cat [b01 (in_class c t); b01 (safe 1 false b); b01 (known b);
          b01 (match r with ROk e _ => String.eqb (raw e) (raw b) | _ => false end)];
-    match r with
-    | ROk e _ => if known e then vals (fun en => if dom en && negb (divzero en e) then Some (seval en e) else None)
-                 else "UNKNOWNFN"
-    | _ => "-"
-    end;
-    vals (fun en => if dom en then Some (ueval en t) else None);
+    (if String.eqb mv sv then "=" else mv);
+    sv;
     String.concat "+" (culprits c t)
   ].
 End Run.
